@@ -218,7 +218,7 @@ func (e *Exec) havocAllHeaps(s *State) {
 
 // inlineCall symbolically executes callee on args in state s (no loops allowed unless they have
 // contracts of their own), returning result values. Obligations inside are suppressed.
-func (e *Exec) inlineCall(s *State, callee *ssa.Function, args []Value, pure bool) []Value {
+func (e *Exec) inlineCall(s *State, callee *ssa.Function, args []Value, pure bool, keepPC ...bool) []Value {
 	if e.inlineDepth > 8 {
 		e.unsupported("inline depth exceeded at %s", callee.Name())
 	}
@@ -251,7 +251,9 @@ func (e *Exec) inlineCall(s *State, callee *ssa.Function, args []Value, pure boo
 		e.unsupported("inlined function %s does not return", callee.Name())
 	}
 	// copy back heap & pc & alloc
-	if pure {
+	if len(keepPC) > 0 && !keepPC[0] {
+		// specification context: nothing leaks
+	} else if pure {
 		// pure: state unchanged except path facts
 		s.pc = ret.pc
 		s.allocBase, s.allocN = ret.allocBase, ret.allocN
@@ -302,6 +304,24 @@ func (e *Exec) applyContract(s *State, ins ssa.Instruction, fc *FuncContract, si
 		e.counters["call:"+cname]++
 	}
 	ord := e.counters["call:"+cname]
+	if fc.Region && sig.Recv() != nil {
+		// the callee is a Lock…Unlock region: other threads may have run before it takes the lock
+		if pt, ok := sig.Recv().Type().Underlying().(*types.Pointer); ok {
+			if mon := e.v.monitorForType(pt.Elem()); mon != nil {
+				if obj, ok := args[0].(*Node); ok {
+					e.havocGuarded(s, mon, pt.Elem(), obj)
+					for _, inv := range mon.Invariants {
+						s.assume(e.evalMonitorInv(mon, inv, pt.Elem(), obj, s))
+					}
+					defer func() {
+						for _, inv := range mon.Invariants {
+							s.assume(e.evalMonitorInv(mon, inv, pt.Elem(), obj, s))
+						}
+					}()
+				}
+			}
+		}
+	}
 	pre := s.clone()
 	for i, r := range fc.Requires {
 		g := sub.evalWith(e, r, s, s, vars)
@@ -395,7 +415,7 @@ func (e *Exec) havocTarget(s, pre *State, m string, vars map[string]specVar, fc 
 			oldA := Select(h, sl.Ref)
 			i := BoundVar("i!m", e.mode.idxSort())
 			s.assume(Forall([]*Node{i}, Implies(Or(e.ilt(i, sl.Off), e.ile(e.iadd(sl.Off, sl.Len), i)), Eq(Select(na, i), Select(oldA, i)))))
-			e.setHeap(s, name, Store(h, sl.Ref, na))
+			e.setHeap(s, name, Store(h, sl.Ref, na), sl.Ref)
 		}
 	default:
 		// x.f  (object field or ghost field)
@@ -424,7 +444,7 @@ func (e *Exec) havocTarget(s, pre *State, m string, vars map[string]specVar, fc 
 			name := ghostHeapName(gf)
 			sortS := e.ghostHeapSort(gf, v.(*Node).Sort)
 			h := e.heap(s, name, sortS)
-			e.setHeap(s, name, Store(h, v.(*Node), TS.Fresh("mod_"+name, arrayValSort(sortS))))
+			e.setHeap(s, name, Store(h, v.(*Node), TS.Fresh("mod_"+name, arrayValSort(sortS))), v.(*Node))
 			return
 		}
 		st, isPtr := structOf(t)
@@ -586,7 +606,7 @@ func (e *Exec) copyBuiltin(s *State, c *ssa.CallCommon, args []Value) Value {
 		upds = append(upds, upd{name, na, h})
 	}
 	for _, u := range upds {
-		e.setHeap(s, u.name, Store(e.heap(s, u.name, u.h.Sort), dst.Ref, u.na))
+		e.setHeap(s, u.name, Store(e.heap(s, u.name, u.h.Sort), dst.Ref, u.na), dst.Ref)
 	}
 	return n
 }
@@ -640,7 +660,7 @@ func (e *Exec) appendBuiltin(s *State, ins ssa.Instruction, c *ssa.CallCommon, a
 			Implies(inOld, Eq(Select(nf, j), Select(oldA, e.iadd(sl.Off, j)))),
 			Implies(inAdd, Eq(Select(nf, j), addAt(li, e.isub(j, sl.Len)))))))
 		h2 := Ite(fits, Store(h, sl.Ref, na), Store(h, fresh, nf))
-		e.setHeap(s, name, h2)
+		e.setHeap(s, name, h2, sl.Ref, fresh)
 	}
 	return &SliceV{Ref: resRef, Off: resOff, Len: newLen, Cap: resCap}
 }
